@@ -130,14 +130,15 @@ SPACINGS = {"iso": 0.1, "aniso": [0.1, 0.2],
             # 3*0.7/0.7 < 3 in floating point: the reference-image crop of
             # load_average has to round, not truncate
             "odd": [0.3, 0.7]}
-NAMES = {"img": "img", "none": None, "a b": "a b"}
+NAMES = {"img": "img", "none": None, "a b": "a b",
+         "unicode": "Probe_5\u00b5m K\u00fcgelchen"}
 KINDS = ["none", "scalar", "dict", "array"]
 
 H5_AXES = {
     "shape": ["5x4x2", "4x5", "1x1", "2x3", "1x7", "3x3x3"],
     "dtype": ["float64", "float32", "int16", "uint8"],
     "spacing": ["iso", "aniso"],
-    "name": ["img", "none", "a b"],
+    "name": ["img", "none", "a b", "unicode"],
     "target": ["ext", "noext"],
     "medium_index": KINDS, "illum_wavelen": KINDS,
     "illum_polarization": KINDS, "noise_sd": KINDS,
@@ -160,7 +161,7 @@ TIFF_INNER = {
     "gshape": ["4x5", "2x3"],
     "dtype": ["float64", "float32", "int16", "uint8"],
     "spacing": ["aniso", "iso"],
-    "name": ["img", "none"],
+    "name": ["img", "none", "unicode"],
     "meta": ["scalar", "none", "dict", "array"],
     "route": ["save_image", "hp.save", "save_image:.tiff"],
 }
@@ -258,9 +259,13 @@ def cases(tier, seed):
             out.append({"id": "raster:%s:%s" % (r, ext), "kind": "raster",
                         "raster": r, "ext": ext})
     nmax = 4 if tier == "thorough" else 3
-    for rk in ("gray-png", "gray16-tif", "rgb-png"):
+    for rk in ("gray-png", "gray16-tif", "rgb-png", "gray32f-tif"):
         for n in range(1, nmax + 1):
             refs = ["none", "plain", "meta", "roi"]
+            if rk == "gray32f-tif":
+                # floating-point frames: the mean is the double-precision
+                # mean of the stored values
+                refs = ["none", "plain"]
             for ref in refs:
                 for sp in ("iso", "aniso", "odd"):
                     if sp == "odd" and ref == "none":
@@ -1000,6 +1005,7 @@ def _run_average(case, ck, d):
                                  case["override"])
     spec, ext = {"gray-png": ("L8:4x5", "png"),
                  "gray16-tif": ("I16:4x5", "tif"),
+                 "gray32f-tif": ("F32:4x5", "tif"),
                  "rgb-png": ("RGB:4x5", "png")}[rk]
     color = rk.startswith("rgb")
     paths, A = [], []
